@@ -275,7 +275,11 @@ impl ShmReader {
             #[cfg(clockbound_verif)]
             let snapshot = unsafe { crate::verif::data_read(self.ceb_shm) };
 
-            // Confirm no update occurred during the read
+            // Confirm no update occurred during the read. The acquire fence keeps the reads of the
+            // record above from being satisfied after the generation is re-read below: without it
+            // the second load may return a stale (unchanged) generation although part of the record
+            // read comes from a newer update.
+            atomic::fence(atomic::Ordering::Acquire);
             let second_gen = generation.load(atomic::Ordering::Acquire);
             if first_gen == second_gen {
                 self.snapshot_gen = first_gen;
